@@ -61,7 +61,11 @@ def check(repo, rep):
             okf = fname is not None and fname[0] == 'call' and fname[1] == ('attr', ('p', 'filename'), 'format')
             rep.ob('a str file name is expanded with str.format before writing', okf, cx.where('core', t[3]), 'AudioRegion.save:format-call', 'target is %s' % (show(fname)[:100] if fname else None))
             if okf:
-                kws = dict(fname[3])
+                from ..facts import kwargs_of
+                kws = kwargs_of(fname)
+                if '**' in kws:
+                    rep.unknown('AudioRegion.save: format arguments passed through an unresolved **mapping')
+                    continue
                 for k in ('start', 'end', 'duration'):
                     rep.ob('{%s} in the file name is filled from the region\'s %s' % (k, k), kws.get(k) == ('attr', ('self',), k), cx.where('core', t[3]), 'AudioRegion.save:placeholder-%s' % k,
                            '{%s} is %s' % (k, show(kws[k])[:60] if k in kws else 'missing'), sample=dict(placeholder=k, value=show(kws[k])[:40] if k in kws else None))
@@ -130,7 +134,11 @@ def check(repo, rep):
             isnone = a == ('c', None) or (a == ('p', 'max_read') and any((g := norm_cmp(c[0], c[1])) and g[0] == 'is' and g[1] == ('p', 'max_read') and g[2] == ('c', None) for c in l.conds))
             rep.ob('without max_read (None or negative) everything that remains is read', isnone, cx.where('core', reads[-1][3]), '_read_offline:read-all', 'reads %s' % (show(a)[:60] if a else None))
         v = l.value
-        okv = v[0] == 'tuple' and len(v[1]) == 4 and (v[1][0] == reads[-1][1] or v[1][0] == ('c', b'') or v[1][0] == ('or', (reads[-1][1], ('c', b''))))
+        R_ = reads[-1][1]
+        d0 = v[1][0] if v[0] == 'tuple' and len(v[1]) >= 1 else None
+        okv = d0 is not None and (d0 == R_ or d0 == ('c', b'') or d0 == ('or', (R_, ('c', b''))) or
+                                  (d0[0] == 'ite' and ((norm_cmp(d0[1], True) == ('is', R_, ('c', None)) and d0[2] == ('c', b'') and d0[3] == R_) or
+                                                       (norm_cmp(d0[1], True) == ('is not', R_, ('c', None)) and d0[2] == R_ and d0[3] == ('c', b'')))))
         rep.ob('load() returns the data of the LAST read (after the skip) or empty bytes', okv, W(l.node), '_read_offline:result', 'returns %s' % show(v)[:100])
         opens = [i for i, e in enumerate(l.effects) if e[0] == 'call' and e[1][0] == 'call' and e[1][1][0] == 'attr' and e[1][1][2] == 'open']
         firstread = min(i for i, e in enumerate(l.effects) if e in reads)
@@ -153,7 +161,7 @@ def check(repo, rep):
             b = bind_call(off[0], ofn)
             ok = b.get('input') == ('p', 'input') and b.get('skip') == ('p', 'skip') and b.get('max_read') == ('p', 'max_read')
             rep.ob('AudioRegion.load passes input / skip / max_read in role to the offline reader', ok, W(l.node), 'AudioRegion.load:args', 'call is %s' % show(off[0])[:100])
-            okr = v[0] == 'call' and v[1] == ('p', 'cls') and len(v[2]) == 4 and all(v[2][i] == ('sub', off[0], ('c', i)) for i in range(4))
+            okr = v[0] == 'call' and v[1] == ('p', 'cls') and ((len(v[2]) == 4 and all(v[2][i] == ('sub', off[0], ('c', i)) for i in range(4))) or v[2] == (('star', off[0]),))
             rep.ob('the loaded region is built from (data, rate, width, channels) in that order', okr, W(l.node), 'AudioRegion.load:result', 'returns %s' % show(v)[:120])
     # numpy export
     nl = cx.leaves('core', 'AudioRegion.numpy')
